@@ -4,7 +4,8 @@
      URI.isHTTPS / URI.isHTTP            -> isHTTPS / isHTTP           (byte comparison with strHTTPS / strHTTP from Gen)
      AddMissingPort                      -> AddMissingPort
      Client.Do                           -> client_do                  (',' check, scheme -> isTLS, unsupported scheme)
-     Client.hostClient                   -> inside client_do           (maps m / ms keyed by the URI host, Addr = AddMissingPort host isTLS)
+     Client.hostClient                   -> inside client_do           (maps m / ms keyed by the URI host, Addr = AddMissingPort host isTLS,
+                                            then Client.ConfigureClient(hc), which may rewrite Addr / IsTLS / WriteTimeout or fail)
      HostClient.Do  (retry loop)         -> hc_attempts
      HostClient.doNonNilReqResp          -> hc_once                    (scheme check c.IsTLS != req.URI().isHTTPS())
      transport.RoundTrip + AcquireConn + dialHostHard + ReleaseConn/CloseConn -> hc_once
@@ -80,7 +81,7 @@ Definition c_tls (c : conn) : bool := kind_tls (c_kind c).
 (* HostClient: Addr, IsTLS, WriteTimeout != 0, idle connections c.conns *)
 Record hostclient := { hc_addr : bytes; hc_tls : bool; hc_wt : bool; hc_pool : list conn }.
 
-Inductive err := EInvalidHost | EUnsupportedScheme | ESchemeMismatch | EConn | ETooManyRedirects | ENoClient | EOutOfFuel.
+Inductive err := EInvalidHost | EUnsupportedScheme | ESchemeMismatch | EConn | ETooManyRedirects | ENoClient | EOutOfFuel | EConfigure.
 
 Inductive event :=
 | EDial (cid : N) (addr : bytes) (k : connkind)  (* dialAddr: conn to addr, of kind k *)
@@ -158,8 +159,15 @@ Fixpoint upd (k : bytes) (v : hostclient) (m : hmap) : hmap :=
   | (k', v') :: r => if beq k k' then (k', v) :: r else (k', v') :: upd k v r
   end.
 
-(* w_cwt: Client.WriteTimeout != 0 (copied into every HostClient the Client creates) *)
-Record world := { w_cwt : bool; w_m : hmap; w_ms : hmap; w_hcs : list hostclient; w_next : N }.
+(* w_cwt: Client.WriteTimeout != 0 (copied into every HostClient the Client creates);
+   w_conf: Client.ConfigureClient, applied to every freshly built HostClient before it is stored (None = it returned an error);
+           identity when the field is nil *)
+Record world := { w_cwt : bool; w_conf : hostclient -> option hostclient;
+                  w_m : hmap; w_ms : hmap; w_hcs : list hostclient; w_next : N }.
+
+(* the HostClient Client.hostClient builds for (host, isTLS) before ConfigureClient sees it *)
+Definition dflt (host : bytes) (isTLS cwt : bool) : hostclient :=
+  {| hc_addr := AddMissingPort host isTLS; hc_tls := isTLS; hc_wt := cwt; hc_pool := [] |}.
 
 Definition contains (b : N) (s : bytes) : bool := existsb (N.eqb b) s.
 
@@ -171,14 +179,21 @@ Definition client_do (w : world) (r : req) (reps : list reply) : world * list ev
     if negb isTLS && negb (isHTTP (r_scheme r)) then (w, [ERefuse r EUnsupportedScheme], OErr EUnsupportedScheme)
     else
       let m := if isTLS then w_ms w else w_m w in
-      let hc := match lookup (r_host r) m with
-                | Some hc => hc
-                | None => {| hc_addr := AddMissingPort (r_host r) isTLS; hc_tls := isTLS; hc_wt := w_cwt w; hc_pool := [] |}
-                end in
-      let '(hc1, next1, evs, out) := hc_do hc r reps (w_next w) in
-      let m1 := upd (r_host r) hc1 m in
-      ({| w_cwt := w_cwt w; w_m := if isTLS then w_m w else m1; w_ms := if isTLS then m1 else w_ms w;
-          w_hcs := w_hcs w; w_next := next1 |}, evs, out).
+      let found := match lookup (r_host r) m with
+                   | Some hc => Some hc
+                   | None => match w_conf w (dflt (r_host r) isTLS (w_cwt w)) with       (* c.ConfigureClient(hc) *)
+                             | Some hx => Some {| hc_addr := hc_addr hx; hc_tls := hc_tls hx; hc_wt := hc_wt hx; hc_pool := [] |}
+                             | None => None
+                             end
+                   end in
+      match found with
+      | None => (w, [ERefuse r EConfigure], OErr EConfigure)                            (* return nil, err: nothing stored *)
+      | Some hc =>
+          let '(hc1, next1, evs, out) := hc_do hc r reps (w_next w) in
+          let m1 := upd (r_host r) hc1 m in
+          ({| w_cwt := w_cwt w; w_conf := w_conf w; w_m := if isTLS then w_m w else m1; w_ms := if isTLS then m1 else w_ms w;
+              w_hcs := w_hcs w; w_next := next1 |}, evs, out)
+      end.
 
 (* stand-alone HostClient number i *)
 Fixpoint set_nth {A} (i : nat) (x : A) (l : list A) : list A :=
@@ -193,7 +208,7 @@ Definition host_do (i : nat) (w : world) (r : req) (reps : list reply) : world *
   | None => (w, [ERefuse r ENoClient], OErr ENoClient)
   | Some hc =>
       let '(hc1, next1, evs, out) := hc_do hc r reps (w_next w) in
-      ({| w_cwt := w_cwt w; w_m := w_m w; w_ms := w_ms w; w_hcs := set_nth i hc1 (w_hcs w); w_next := next1 |}, evs, out)
+      ({| w_cwt := w_cwt w; w_conf := w_conf w; w_m := w_m w; w_ms := w_ms w; w_hcs := set_nth i hc1 (w_hcs w); w_next := next1 |}, evs, out)
   end.
 
 (* ---- redirects ------------------------------------------------------------------------- *)
@@ -248,10 +263,13 @@ Fixpoint run (w : world) (cs : list call) : world * list event * list outcome :=
 Definition hcfg := (bytes * bool * bool)%type.
 Definition mk_hc (p : hcfg) : hostclient :=
   {| hc_addr := fst (fst p); hc_tls := snd (fst p); hc_wt := snd p; hc_pool := [] |}.
-Definition init (cwt : bool) (hcs : list hcfg) : world :=
-  {| w_cwt := cwt; w_m := []; w_ms := []; w_hcs := map mk_hc hcs; w_next := 0 |}.
+Definition conf_id (hc : hostclient) : option hostclient := Some hc.       (* ConfigureClient == nil *)
+Definition init_conf (cwt : bool) (conf : hostclient -> option hostclient) (hcs : list hcfg) : world :=
+  {| w_cwt := cwt; w_conf := conf; w_m := []; w_ms := []; w_hcs := map mk_hc hcs; w_next := 0 |}.
+Definition init (cwt : bool) (hcs : list hcfg) : world := init_conf cwt conf_id hcs.
 
-Definition trace (cwt : bool) (hcs : list hcfg) (cs : list call) : list event :=
-  snd (fst (run (init cwt hcs) cs)).
+Definition trace_conf (cwt : bool) (conf : hostclient -> option hostclient) (hcs : list hcfg) (cs : list call) : list event :=
+  snd (fst (run (init_conf cwt conf hcs) cs)).
+Definition trace (cwt : bool) (hcs : list hcfg) (cs : list call) : list event := trace_conf cwt conf_id hcs cs.
 Definition outcomes (cwt : bool) (hcs : list hcfg) (cs : list call) : list outcome :=
   snd (run (init cwt hcs) cs).
